@@ -63,7 +63,9 @@ class ModeSys(System):
                 else:
                     h = darr.create_raggedarray(self.path, atom=(), dtype=self.dtype, accessmode='r', metadata=meta)
         self.handles = {'h': h}
-        self.model = {'n': n, 'meta': sorted(meta or {}), 'mode': mode, 'deleted': False}
+        # mmode: mode of the metadata sub-handle (the user may set it separately; assigning the
+        # handle's accessmode must bring both back in line)
+        self.model = {'n': n, 'meta': sorted(meta or {}), 'mode': mode, 'mmode': mode, 'deleted': False}
         if h.accessmode != 'r':
             return [viol('mode', f'create/{route}', 'start', 'handle not read-only as requested',
                          f'route {route} gave accessmode {h.accessmode!r}')]
@@ -80,7 +82,8 @@ class ModeSys(System):
 
     def abstract(self):
         m = self.model
-        return f"{self.cfg['kind']},n={'0' if m['n'] == 0 else '>0'},meta={'yes' if m['meta'] else 'no'},{m['mode']}"
+        return f"{self.cfg['kind']},n={'0' if m['n'] == 0 else '>0'},meta={'yes' if m['meta'] else 'no'},{m['mode']}" + \
+               ('' if m['mmode'] == m['mode'] else f",metadata-handle={m['mmode']}")
 
     # ------------------------------------------------------------------ alphabet
     def enabled(self):
@@ -103,7 +106,7 @@ class ModeSys(System):
             dis += 2
         ops += [('trunc', 0), ('trunc', -1), ('delete',)]
         ops += [('meta', 'update'), ('meta', 'set'), ('meta', 'pop'), ('meta', 'popitem'), ('meta', 'del')]
-        ops += [('mode', 'r'), ('mode', 'r+'), ('reopen_default',), ('reopen_rw',)]
+        ops += [('mode', 'r'), ('mode', 'r+'), ('reopen_default',), ('reopen_rw',), ('metamode', 'r'), ('metamode', 'r+')]
         return ops, dis
 
     # ------------------------------------------------------------------ step
@@ -120,17 +123,25 @@ class ModeSys(System):
         newm = self.copy_model()
         valid = True          # would the call be valid in mode r+ ?
         effect = None         # predicate on the handle, evaluated after a successful call
+        if kind == 'metamode':
+            what, val = outcome_of(lambda: setattr(h.metadata, 'accessmode', op[1]))
+            label = what if what == 'returns' else f'raises:{exc_class(val)}'
+            if what == 'raises':
+                return StepResult(label, [viol('mode', opdesc, pre, label, f'{opdesc}: {val!r}')], diverged=True)
+            newm['mmode'] = op[1]
+            self.model = newm
+            return StepResult(label)
         if kind in ('mode', 'reopen_default', 'reopen_rw'):
             if kind == 'mode':
                 what, val = outcome_of(lambda: setattr(h, 'accessmode', op[1]))
-                newm['mode'] = op[1]
+                newm['mode'] = newm['mmode'] = op[1]
             else:
                 md = 'r' if kind == 'reopen_default' else 'r+'
                 cls = darr.Array if arr else darr.RaggedArray
                 what, val = outcome_of(lambda: cls(self.path) if md == 'r' else cls(self.path, accessmode='r+'))
                 if what == 'returns':
                     self.handles['h'] = val
-                newm['mode'] = md
+                newm['mode'] = newm['mmode'] = md
             label = what if what == 'returns' else f'raises:{exc_class(val)}'
             if what == 'raises' or self.handles['h'].accessmode != newm['mode']:
                 return StepResult(label, [viol('mode', opdesc, pre, f'mode switch failed: {label}',
@@ -201,7 +212,7 @@ class ModeSys(System):
         what, val = outcome_of(call)
         label = what if what == 'returns' else f'raises:{exc_class(val)}'
         after = snapshot.snap(self.root)
-        if m['mode'] == 'r':
+        if (m['mmode'] if kind == 'meta' else m['mode']) == 'r':
             V = []
             if what == 'returns':
                 V.append(viol('mode', opdesc, pre, 'mutating call did not raise in mode r',
